@@ -18,9 +18,12 @@ import (
 
 // fatal stops the translation: the source no longer has the shape the translator
 // understands, so the tie between the model and the code is broken.
+// It ends the generator that called it (see main): that generator's file is replaced by a stub
+// which does not compile, so that exactly the theorems depending on it stop checking.
+type translatorStop struct{ msg string }
+
 func fatal(format string, args ...interface{}) {
-	fmt.Fprintf(os.Stderr, "TRANSLATOR-STOP: "+format+"\n", args...)
-	os.Exit(3)
+	panic(translatorStop{fmt.Sprintf(format, args...)})
 }
 
 type source struct {
